@@ -290,7 +290,7 @@ func (c *ColumnImage) UnmarshalJSON(data []byte) error {
 			// text is stored as it is (see MarshalJSON): guessing "this looks like base64" would turn
 			// values such as "John" or "1234" into garbage
 			actualValue = str
-		case JDBCTypeBinary, JDBCTypeVarBinary, JDBCTypeLongVarBinary, JDBCTypeBit:
+		case JDBCTypeBinary, JDBCTypeVarBinary, JDBCTypeLongVarBinary, JDBCTypeBit, JDBCTypeOther:
 			// the row scanner hands these columns over as raw bytes (see GetScanSlice), which
 			// encoding/json writes as base64 text: hand the bytes back, not their base64 form
 			if str, ok := value.(string); ok {
@@ -302,6 +302,9 @@ func (c *ColumnImage) UnmarshalJSON(data []byte) error {
 			} else {
 				actualValue = value
 			}
+		default:
+			// a type code without a rule of its own: keep what was stored rather than dropping it
+			actualValue = value
 		}
 	}
 	*c = ColumnImage{
